@@ -251,7 +251,7 @@ theorem inv_n_le (s : CSampler) (h : s.Inv) : s.n ≤ s.cutoff :=
 
 /-! ### maximum over replicas -/
 
-theorem foldl_max_ge_init (cs : List Nat) (a : Nat) : a ≤ cs.foldl max a := by
+theorem foldl_natMax_ge_init (cs : List Nat) (a : Nat) : a ≤ cs.foldl max a := by
   induction cs generalizing a with
   | nil => exact Nat.le_refl _
   | cons x t ih => exact Nat.le_trans (Nat.le_max_left a x) (ih (max a x))
@@ -261,13 +261,13 @@ theorem le_foldl_max (cs : List Nat) (a x : Nat) (hx : x ∈ cs) : x ≤ cs.fold
   | nil => cases hx
   | cons y t ih =>
     cases hx with
-    | head => exact Nat.le_trans (Nat.le_max_right a x) (foldl_max_ge_init t _)
+    | head => exact Nat.le_trans (Nat.le_max_right a x) (foldl_natMax_ge_init t _)
     | tail _ h => exact ih (max a y) h
 
 theorem le_maxCutoff (cs : List Nat) (x : Nat) (hx : x ∈ cs) : x ≤ maxCutoff cs :=
   le_foldl_max cs 0 x hx
 
-theorem foldl_max_mem (cs : List Nat) (a : Nat) : cs.foldl max a = a ∨ cs.foldl max a ∈ cs := by
+theorem foldl_natMax_mem (cs : List Nat) (a : Nat) : cs.foldl max a = a ∨ cs.foldl max a ∈ cs := by
   induction cs generalizing a with
   | nil => exact Or.inl rfl
   | cons x t ih =>
